@@ -71,26 +71,33 @@ def execute_hashseed(plan):
     import sys as _sys
     sim = Sim(plan['seed'])
     violations = []
-    here = launch_plans_here(plan['configs'])
     path = f"/dev/shm/dst-hs-{os.getpid()}-{plan['seed'] % 10**8}.json"
     with sbx._real_open(path, 'w') as f:
         json.dump(plan['configs'], f)
+
+    def in_subprocess(hs):
+        env = dict(os.environ, PYTHONHASHSEED=str(hs), DST_NO_REEXEC='1')
+        p = subprocess.run(
+            [_sys.executable, os.path.join(runner.VERIF, 'dst', 'main.py'),
+             PROP, '--launchplans', path], env=env, capture_output=True,
+            text=True, timeout=900)
+        for line in p.stdout.splitlines():
+            if line.startswith('LAUNCHPLANS '):
+                return json.loads(line[len('LAUNCHPLANS '):])
+        raise HarnessError('launch-plan subprocess failed: '
+                           + p.stderr[-800:])
+
+    # the reference is always computed under the same hash seed (the one
+    # the check runs with), also when the plan is replayed by an
+    # interpreter started under another one: replay stays exact
+    ref_hs = str(plan.get('reference_hashseed', '0'))
+    if os.environ.get('PYTHONHASHSEED') == ref_hs:
+        here = launch_plans_here(plan['configs'])
+    else:
+        here = in_subprocess(ref_hs)
     try:
         for hs in plan['hashseeds']:
-            env = dict(os.environ, PYTHONHASHSEED=str(hs),
-                       DST_NO_REEXEC='1')
-            p = subprocess.run(
-                [_sys.executable, os.path.join(runner.VERIF, 'dst',
-                                               'main.py'), PROP,
-                 '--launchplans', path], env=env, capture_output=True,
-                text=True, timeout=900)
-            there = None
-            for line in p.stdout.splitlines():
-                if line.startswith('LAUNCHPLANS '):
-                    there = json.loads(line[len('LAUNCHPLANS '):])
-            if there is None:
-                raise HarnessError('launch-plan subprocess failed: '
-                                   + p.stderr[-800:])
+            there = in_subprocess(hs)
             sim.probe('launch_plan_recomputed_under_other_hash_seed',
                       len(there))
             for cfg, a, b in zip(plan['configs'], here, there):
@@ -100,8 +107,7 @@ def execute_hashseed(plan):
                                  'hash_seed',
                         'detail': {'config': {k: cfg[k] for k in (
                             'n_inputs', 'n_nodes', 'n_cores', 'trials')},
-                            'hash_seeds': [os.environ.get(
-                                'PYTHONHASHSEED'), str(hs)]}})
+                            'hash_seeds': [ref_hs, str(hs)]}})
                     break
             if violations:
                 break
@@ -534,7 +540,7 @@ def gen_hashseed_plan(seed):
                         'n_cores': C, 'trials': T, 'cpu_count': C,
                         'listing_perm': list(range(I))})
     return {'property': PROP, 'seed': seed, 'mode': 'hashseed',
-            'configs': configs,
+            'configs': configs, 'reference_hashseed': '0',
             'hashseeds': [rng.randrange(1, 10**6), rng.randrange(1, 10**6)]}
 
 
